@@ -97,7 +97,14 @@ def gen_env(rng):
     e["LC_ALL"] = rng.choice(LOCALE_CHOICES)
     e["LANG"] = rng.choice(LOCALE_CHOICES)
     e["PYTHONUTF8"] = rng.choice([None, None, "0", "1"])
-    e["cwd"] = rng.choice(["root", "tmp", "deleted"])
+    e["cwd"] = rng.choice(["root", "tmp", "tmp", "deleted", "symlink"])
+    # the last path component of a fresh working directory: plain, with a space, non-ASCII, very long
+    e["cwd_name"] = rng.choice(["plain", "plain", "space", "unicode", "long"])
+    # individual locale categories on top of LC_ALL / LANG (LC_ALL, when set, overrides them - as in real life)
+    for cat in ("LC_NUMERIC", "LC_COLLATE", "LC_CTYPE", "LC_MONETARY", "LC_TIME", "LC_MESSAGES"):
+        if rng.random() < 0.15:
+            e[cat] = rng.choice([x for x in LOCALE_CHOICES if x])
+    e["umask"] = rng.choice([0o022, 0o022, 0o077, 0o000, 0o027])
     # what a real process would draw from the OS at start-up (urandom, pid, start time): owned by the simulator too
     e["entropy"] = rng.randrange(1, 2 ** 32)
     cands = scan_cwd_candidates()
@@ -129,14 +136,15 @@ class Node:
         self.info = None
         self.incarnation = 0
         self.disk = None
+        self.link = None
 
     def start(self):
         env_spec = self.env
         r_child, w_parent = os.pipe()
         r_parent, w_child = os.pipe()
-        env = {k: v for k, v in os.environ.items() if k not in ("LC_ALL", "LANG", "LC_CTYPE", "PYTHONUTF8", "PYTHONPATH", "PYTHONHASHSEED")}
+        env = {k: v for k, v in os.environ.items() if not k.startswith("LC_") and k not in ("LANG", "LANGUAGE", "PYTHONUTF8", "PYTHONPATH", "PYTHONHASHSEED")}
         env["PYTHONHASHSEED"] = str(env_spec["hashseed"])
-        for k in ("LC_ALL", "LANG", "PYTHONUTF8"):
+        for k in ("LC_ALL", "LANG", "PYTHONUTF8", "LC_NUMERIC", "LC_COLLATE", "LC_CTYPE", "LC_MONETARY", "LC_TIME", "LC_MESSAGES"):
             if env_spec.get(k) is not None:
                 env[k] = env_spec[k]
         env["VERIF_NODE_FDS"] = f"{r_child},{w_child}"
@@ -150,11 +158,14 @@ class Node:
             env[var] = self.disk
         env["PYTHONDONTWRITEBYTECODE"] = "1"
         cwd = "/"
-        if env_spec["cwd"] in ("tmp", "deleted"):
+        if env_spec["cwd"] in ("tmp", "deleted", "symlink"):
             # deterministic name (a program that folds its cwd into an assignment must replay exactly)
             # (the parent directory is private to this harness process, so concurrent checks cannot collide;
             #  only the last path component is a function of the scenario)
-            base = os.path.join(_fleet_root(), "pyab-node-%d" % env_spec.get("entropy", 0))
+            ent = env_spec.get("entropy", 0)
+            leaf = {"plain": "pyab-node-%d", "space": "pyab node %d", "unicode": "pyab-n\u0153ud-\u65e5\u672c-%d",
+                    "long": "pyab-" + "d" * 180 + "-%d"}.get(env_spec.get("cwd_name", "plain"), "pyab-node-%d") % ent
+            base = os.path.join(_fleet_root(), leaf)
             self.tmp = base
             k = 0
             while True:
@@ -172,7 +183,15 @@ class Node:
                     fp.write(content)
             if env_spec["cwd"] == "deleted":
                 env["VERIF_NODE_RMCWD"] = "1"
-        self.proc = subprocess.Popen([PY, NODE_PY], env=env, cwd=cwd, pass_fds=(r_child, w_child),
+            if env_spec["cwd"] == "symlink":
+                link = self.tmp + ".link"
+                try:
+                    os.symlink(self.tmp, link)
+                    cwd = link
+                    self.link = link
+                except OSError:
+                    pass
+        self.proc = subprocess.Popen([PY, NODE_PY], env=env, cwd=cwd, pass_fds=(r_child, w_child), umask=env_spec.get("umask", -1),
                                      stdin=subprocess.DEVNULL, stdout=subprocess.DEVNULL, stderr=subprocess.DEVNULL)
         os.close(r_child)
         os.close(w_child)
@@ -221,6 +240,12 @@ class Node:
                 os.close(self.r)
             except OSError:
                 pass
+        if self.link:
+            try:
+                os.unlink(self.link)
+            except OSError:
+                pass
+            self.link = None
         if self.tmp:
             shutil.rmtree(self.tmp, ignore_errors=True)
             self.tmp = None
